@@ -66,7 +66,8 @@ CHECKS = {
         parts=[dict(name="random", run="TestC01Random", checks=dict(quick=36, thorough=150), shards=dict(quick=1, thorough=8), timeout=dict(quick=600, thorough=1800)),
                dict(name="slow", run="TestC01Slow", checks=dict(quick=10, thorough=60), shards=dict(quick=2, thorough=8), timeout=dict(quick=600, thorough=1800)),
                dict(name="break", run="TestC01Break", checks=dict(quick=6, thorough=60), shards=dict(quick=4, thorough=8), timeout=dict(quick=600, thorough=1800),
-                    args=dict(quick=["-c01.maxfill=6000", "-c01.maxstorm=4"], thorough=["-c01.maxfill=12000", "-c01.maxstorm=8"]))],
+                    args=dict(quick=["-c01.maxfill=6000", "-c01.maxstorm=4"], thorough=["-c01.maxfill=12000", "-c01.maxstorm=8"])),
+               dict(name="resub", run="TestC01Resub", checks=dict(quick=8, thorough=80), shards=dict(quick=3, thorough=8), timeout=dict(quick=600, thorough=1800))],
     ),
     "C12": dict(
         engine="ingestfuzz",
@@ -388,6 +389,7 @@ CHECKS = {
         parts=[
             dict(name="random", run="TestC20Random", checks=dict(quick=10000, thorough=50000), shards=dict(quick=1, thorough=16)),
             dict(name="shapes", run="TestC20Shapes", checks=dict(quick=1500, thorough=6000), shards=dict(quick=4, thorough=16)),
+            dict(name="edges", run="TestC20Edges", checks=dict(quick=3000, thorough=30000), shards=dict(quick=2, thorough=8)),
         ],
     ),
     "C19": dict(
